@@ -45,10 +45,10 @@ def qv(t):
 # ----------------------------------------------------------------------------- problems by name
 # P = dict(name, max, cols=[(name, obj, lo, up, isint)], rows=[(name, sense, rhs, range, [(colname, coef)])])
 
-def load_block(h, P):
-    """LOAD op of h_io: rows refer to columns by index"""
+def load_block(h, P, mix=None):
+    """LOAD op of h_io: rows refer to columns by index; mix = k: LOADMIX (rows are added after the first k columns)"""
     idx = {c[0]: j for j, c in enumerate(P["cols"])}
-    out = ["LOAD h%d" % h, "LP %s %s %d %d" % (enc(P.get("name", "p")), "MAX" if P["max"] else "MIN", len(P["cols"]), len(P["rows"]))]
+    out = ["LOAD h%d" % h if mix is None else "LOADMIX h%d %d" % (h, mix), "LP %s %s %d %d" % (enc(P.get("name", "p")), "MAX" if P["max"] else "MIN", len(P["cols"]), len(P["rows"]))]
     for (n, o, l, u, it) in P["cols"]:
         out.append("COL %s %s %s %s %d" % (enc(n), qs(o), qs(l), qs(u), 1 if it else 0))
     for (n, s, r, g, ent) in P["rows"]:
@@ -63,6 +63,9 @@ def parse_dump(lines):
         return None
     h = lines[0]
     P = dict(max=h[1] == "MAX", name=dec(h[4]) if len(h) > 4 and h[4] != "-" else None, cols=[], rows=[])
+    if len(h) > 6:
+        P["objname"] = dec(h[5]) if h[5] != "-" else None      # lp->objname (NULL: the writers invent one)
+        P["intmarker"] = h[6] == "1"                           # lp->intmarker != NULL
     for t in lines[1:]:
         if t[0] == "C":
             P["cols"].append((dec(t[1]), qv(t[2]), qv(t[3]), qv(t[4]), t[5] == "1"))
@@ -76,7 +79,7 @@ def parse_dump(lines):
 def split_ops(toks):
     """group the token lines of a case by leading op line: returns list of (head tokens, following detail lines)"""
     heads = {"SOLUTION", "ILP", "NUM", "GETVAL", "PRINTNUM", "LOAD", "PUT", "CAT", "TRYREAD", "READ", "READP", "WRITE", "P", "TRYBASIS", "SOLVE", "OPT",
-             "BASIS", "LOADBASIS", "WRITEBASIS", "READBASIS", "READLOADBASIS", "BOPT", "PRINTSOL", "FREE", "NOPROB", "UNKNOWN", "EDIT"}
+             "PC", "BASIS", "LOADBASIS", "WRITEBASIS", "READBASIS", "READLOADBASIS", "BOPT", "PRINTSOL", "FREE", "NOPROB", "UNKNOWN", "EDIT"}
     out = []
     for t in toks:
         if t[0] in heads:
@@ -238,6 +241,60 @@ def nlp_block(P, intern):
     for (n, s, r, g, ent) in P["rows"]:
         out.append("NR %d %s %s %s %d %s" % (intern(n), s, qs(r), qs(g), len(ent), " ".join("%d %s" % (intern(c), qs(v)) for c, v in ent)))
     return "\n".join(out)
+
+
+def slp_block(P, objname=None, intmarker=None):
+    """by-name problem with the names themselves (%-encoded) for the lpwrite / lpread queries of drv_io"""
+    on = objname if objname is not None else (P.get("objname") or "obj")
+    im = intmarker if intmarker is not None else P.get("intmarker", any(c[4] for c in P["cols"]))
+    out = ["SLP %d %s %s %d %d %d" % (1 if P["max"] else 0, enc(P["name"]) if P.get("name") is not None else "-", enc(on), 1 if im else 0,
+                                      len(P["cols"]), len(P["rows"]))]
+    for (n, o, l, u, it) in P["cols"]:
+        out.append("SC %s %s %s %s %d" % (enc(n), qs(o), qs(l), qs(u), 1 if it else 0))
+    for (n, s, r, g, ent) in P["rows"]:
+        out.append("SR %s %s %s %s %d %s" % (enc(n), s, qs(r), qs(g), len(ent), " ".join("%s %s" % (enc(c), qs(v)) for c, v in ent)))
+    return "\n".join(out)
+
+
+def parse_dumpc(lines):
+    """token lines of one DUMPC -> column-wise problem dict(name, max, objname, intmarker, rangeval, cols=[(name, obj, lo, up, int, [(row, coef)])],
+    rows=[(name, sense, rhs, range)]); None if 'PC ERR'"""
+    if not lines or lines[0][0] != "PC" or lines[0][1] == "ERR":
+        return None
+    h = lines[0]
+    C = dict(max=h[1] == "MAX", name=dec(h[4]) if h[4] != "-" else None, objname=dec(h[5]) if h[5] != "-" else None,
+             intmarker=h[6] == "1", rangeval=h[7] == "1", cols=[], rows=[])
+    for t in lines[1:]:
+        if t[0] == "CC":
+            k = int(t[6])
+            C["cols"].append((dec(t[1]), qv(t[2]), qv(t[3]), qv(t[4]), t[5] == "1", [(dec(t[7 + 2 * i]), qv(t[8 + 2 * i])) for i in range(k)]))
+        elif t[0] == "RR":
+            C["rows"].append((dec(t[1]), t[2], qv(t[3]), qv(t[4])))
+    return C
+
+
+def mlp_block(C, objname):
+    out = ["MLP %d %s %s %d %d %d %d" % (1 if C["max"] else 0, enc(C["name"] or ""), enc(objname), 1 if C["intmarker"] else 0, 1 if C["rangeval"] else 0,
+                                         len(C["cols"]), len(C["rows"]))]
+    for (n, o, l, u, it, ent) in C["cols"]:
+        out.append("MC %s %s %s %s %d %d %s" % (enc(n), qs(o), qs(l), qs(u), 1 if it else 0, len(ent), " ".join("%s %s" % (enc(r), qs(v)) for r, v in ent)))
+    for (n, s_, r, g) in C["rows"]:
+        out.append("MR %s %s %s %s" % (enc(n), s_, qs(r), qs(g)))
+    return "\n".join(out)
+
+
+def lp_objname(P):
+    """the objective name ILLwrite_lp starts from: lp->objname, or "obj" made unique against the row names (ILLsymboltab_uname
+    with prefix "" : obj, obj_0, obj_1, ...)"""
+    if P.get("objname") is not None:
+        return P["objname"]
+    rn = set(r[0] for r in P["rows"])
+    if "obj" not in rn:
+        return "obj"
+    k = 0
+    while "obj_%d" % k in rn:
+        k += 1
+    return "obj_%d" % k
 
 
 def equiv_query(qid, P, P2):
@@ -475,23 +532,28 @@ def gen_edits(rng, P):
     return out
 
 
-def rt_script(cid, P, fmt, with_solve, with_z, edits=()):
+def rt_script(cid, P, fmt, with_solve, with_z, edits=(), mix=None):
     e = "lp" if fmt == "LP" else "mps"
-    L = ["CASE %s" % cid, load_block(0, P)] + ["EDIT h0 %s" % x for x in edits] + ["DUMPO h0",
-         "WRITE h0 a.%s %s" % (e, fmt), "CAT a.%s" % e, "READ h1 a.%s %s" % (e, fmt), "DUMPO h1",
-         "WRITE h1 b.%s %s" % (e, fmt), "CAT b.%s" % e, "READ h2 b.%s %s" % (e, fmt), "DUMPO h2"]
+    fp = cid + "_"          # cases of one chunk share a scratch directory: file names carry the case id
+
+    def wr(h, f, ff):
+        """write op; an MPS write is preceded by the column-wise dump the MPS writer model needs"""
+        return (["DUMPC h%d" % h] if ff == "MPS" else []) + ["WRITE h%d %s %s" % (h, f, ff)]
+    L = ["CASE %s" % cid, load_block(0, P, mix)] + ["EDIT h0 %s" % x for x in edits] + ["DUMPO h0"] + \
+        wr(0, fp + "a.%s" % e, fmt) + ["CAT " + fp + "a.%s" % e, "READ h1 " + fp + "a.%s %s" % (e, fmt), "DUMPO h1"] + \
+        wr(1, fp + "b.%s" % e, fmt) + ["CAT " + fp + "b.%s" % e, "READ h2 " + fp + "b.%s %s" % (e, fmt), "DUMPO h2"]
     if fmt == "MPS":
         # LP rendering of the same problem; MPS -> LP -> MPS and LP -> MPS -> LP
-        L += ["WRITE h0 c.lp LP", "CAT c.lp", "READ h3 c.lp LP", "DUMPO h3",            # h3 = read_lp(write_lp P)
-              "WRITE h1 d.lp LP", "CAT d.lp", "READ h4 d.lp LP", "DUMPO h4",            # MPS -> LP
-              "WRITE h4 e.mps MPS", "CAT e.mps", "READ h5 e.mps MPS", "DUMPO h5",       # MPS -> LP -> MPS
-              "WRITE h3 f.mps MPS", "CAT f.mps", "READ h6 f.mps MPS", "DUMPO h6",       # LP -> MPS
-              "WRITE h6 g.lp LP", "CAT g.lp", "READ h7 g.lp LP", "DUMPO h7"]            # LP -> MPS -> LP
+        L += ["WRITE h0 " + fp + "c.lp LP", "CAT " + fp + "c.lp", "READ h3 " + fp + "c.lp LP", "DUMPO h3",            # h3 = read_lp(write_lp P)
+              "WRITE h1 " + fp + "d.lp LP", "CAT " + fp + "d.lp", "READ h4 " + fp + "d.lp LP", "DUMPO h4"] + \
+             wr(4, fp + "e.mps", "MPS") + ["CAT " + fp + "e.mps", "READ h5 " + fp + "e.mps MPS", "DUMPO h5"] + \
+             wr(3, fp + "f.mps", "MPS") + ["CAT " + fp + "f.mps", "READ h6 " + fp + "f.mps MPS", "DUMPO h6",
+              "WRITE h6 " + fp + "g.lp LP", "CAT " + fp + "g.lp", "READ h7 " + fp + "g.lp LP", "DUMPO h7"]            # LP -> MPS -> LP
     if with_solve:
         L += ["SOLVE h0", "SOLVE h1"]
     if with_z:
-        L += ["WRITE h0 z.%s.gz %s" % (e, fmt), "CAT z.%s.gz" % e, "READ h8 z.%s.gz %s" % (e, fmt), "DUMPO h8",
-              "WRITE h0 z.%s.bz2 %s" % (e, fmt), "CAT z.%s.bz2" % e, "READ h9 z.%s.bz2 %s" % (e, fmt), "DUMPO h9"]
+        L += wr(0, fp + "z.%s.gz" % e, fmt) + ["CAT " + fp + "z.%s.gz" % e, "READ h8 " + fp + "z.%s.gz %s" % (e, fmt), "DUMPO h8"] + \
+             wr(0, fp + "z.%s.bz2" % e, fmt) + ["CAT " + fp + "z.%s.bz2" % e, "READ h9 " + fp + "z.%s.bz2 %s" % (e, fmt), "DUMPO h9"]
     return "\n".join(L) + "\n"
 
 
@@ -517,17 +579,32 @@ def run_roundtrip_check(ck, fmt, pr, gen):
     probs = {}
     corp = os.path.join(VERIF, "corpus", pid)
     cases = []
+    mixes = {}
+    fam = {}
     for i in range(n):
-        P = gen.gen_problem(ck.rng, fmt, big=(i % 2 == 0))
         cid = "g%d" % i
+        if i % 10 == 3:
+            P = gen.gen_problem_wrap(ck.rng, fmt)               # long objective / rows: several wrap points, signs vary
+            fam[cid] = "wrap"
+        elif i % 10 in (7, 9):
+            P = gen.gen_problem_kwbounds(ck.rng, fmt)           # columns named like keywords with free / one-sided bounds
+            fam[cid] = "keyword-bounds"
+        else:
+            P = gen.gen_problem(ck.rng, fmt, big=(i % 2 == 0))
+            fam[cid] = "general"
         probs[cid] = P
+        # rows added before some of the columns: structmap is not the identity
+        nc = len(P["cols"])
+        mixes[cid] = (ck.rng.randrange(0, max(1, nc // 2 + 1)) if fam[cid] == "wrap" else ck.rng.randrange(0, nc + 1)) if (i % 2 == 1 or fam[cid] == "wrap") else None
     k = 0
     edits = {}
     for cid, P in probs.items():
         k += 1
         edits[cid] = gen_edits(ck.rng, P) if k % 3 == 0 else []
-        cases.append((cid, rt_script(cid, P, fmt, gen.magnitude_ok(P), k % 5 == 0, edits[cid])))
+        cases.append((cid, rt_script(cid, P, fmt, gen.magnitude_ok(P), k % 5 == 0, edits[cid], mixes[cid])))
     ck.cov["cases_with_edit_history"] = sum(1 for v in edits.values() if v)
+    ck.cov["cases_rows_before_columns"] = sum(1 for v in mixes.values() if v is not None)
+    ck.cov["case_families"] = {f: sum(1 for v in fam.values() if v == f) for f in set(fam.values())}
     scripts = dict(cases)
     M, outs, crashes, where = run_io_cases(cases, per_case_timeout=120, tag=pid, keep=True)
     crashed = {c[0]: c for c in crashes}
@@ -539,6 +616,10 @@ def run_roundtrip_check(ck, fmt, pr, gen):
     info = {}
     numbers = set()
     bq = {}
+    wq = {}         # writer correspondence: query id -> (case, label, text written by the library)
+    mq = {}         # the same for MPS files
+    tq = {}         # statement of C08_lp_roundtrip evaluated by the extracted code on the generated problem
+    nq = {}         # name repair: model fix_names vs announced renames
     e = "lp" if fmt == "LP" else "mps"
     for cid, P in probs.items():
         toks = outs.get(cid)
@@ -553,9 +634,12 @@ def run_roundtrip_check(ck, fmt, pr, gen):
             o.next("EDIT")            # edits may fail (e.g. range on a non-ranged row): the dump below is what counts
         P0 = dump_of(o.next("P"))
         texts = []
+        lpw = []         # (source problem as dumped, announced renames, text) of every successful LP write
+        mpw = []         # (column-wise dump, text) of every successful MPS write
 
         def step(src_handle_problem, f, label):
-            """consume WRITE (+CAT) READ DUMPO; returns (problem or None, renames, text)"""
+            """consume [DUMPC] WRITE (+CAT) READ DUMPO; returns (problem or None, renames, text)"""
+            pc = o.next("PC") if f == "MPS" else None
             w = o.next("WRITE")
             text = None
             text = cat_bytes(o.next("CAT"))
@@ -569,6 +653,12 @@ def run_roundtrip_check(ck, fmt, pr, gen):
             if not ok:
                 why = "write rv=%s" % (w[0][1:3] if w else None,) if not (w and w[0][0] == "WRITE" and w[0][1] == "0") else \
                     "reader rejected the written file: %s" % [dec(t[3]).strip() for t in (r[1] if r else []) if t[0] == "E" and t[1] not in ("1", "3", "5")][:3]
+            if f == "LP" and w is not None and w[0][0] == "WRITE" and w[0][1] == "0" and text is not None and src_handle_problem is not None:
+                lpw.append((src_handle_problem, renames_of(w), text, label))
+            if f == "MPS" and w is not None and w[0][0] == "WRITE" and w[0][1] == "0" and text is not None and pc is not None and pc[0][0] == "PC":
+                C = parse_dumpc([pc[0]] + pc[1])
+                if C is not None:
+                    mpw.append((C, text, label))
             return Pn, (renames_of(w) if w and f == "LP" else {}), text, why
 
         chain = []   # (label, source problem, result, renames, fmt of file, why)
@@ -600,11 +690,35 @@ def run_roundtrip_check(ck, fmt, pr, gen):
                 s = o.next("SOLVE")
                 sols.append(solve_result(s) if s and s[0][0] == "SOLVE" else None)
         zs = []
-        if "z.%s.gz" % e in scripts[cid]:
+        if "_z.%s.gz" % e in scripts[cid]:
             for lab in ("z1", "z2"):
                 Pz, _, tz, why = step(P0, fmt, lab)
                 zs.append((Pz, tz, why))
-        info[cid] = dict(P0=P0, chain=chain, sols=sols, zs=zs, texts=texts, t1=t1, ren1=ren1)
+        info[cid] = dict(P0=P0, chain=chain, sols=sols, zs=zs, texts=texts, t1=t1, ren1=ren1, lpw=lpw)
+        for j, (A, ren, text, lab) in enumerate(lpw):
+            if "objname" in A and len(text) < 400000:
+                on = lp_objname(A)
+                Ar = rename_problem(A, ren)
+                Ar["objname"], Ar["intmarker"] = ren.get(on, on), A["intmarker"]
+                wq["%s.w%d" % (cid, j)] = (cid, lab, text)
+                q.append("Q %s.w%d lpwrite\n%s" % (cid, j, slp_block(Ar)))
+                # name repair: the model's fix_names on the original names vs the renames the writer announced
+                cn = [c[0] for c in A["cols"]]
+                rn = [r[0] for r in A["rows"]]
+                if all(n != "" or True for n in cn + rn):
+                    nq["%s.n%d" % (cid, j)] = (cid, lab, cn, rn, on, ren, A.get("objname") is None)
+                    q.append("Q %s.n%dc fixnames x %s" % (cid, j, " ".join(enc(n) for n in cn)))
+                    q.append("Q %s.n%dr fixnames c %s" % (cid, j, " ".join(enc(n) for n in rn + [on])))
+                    if A.get("objname") is None:
+                        q.append("Q %s.n%do defobj %s" % (cid, j, " ".join(enc(n) for n in rn)))
+                if fmt == "LP" and j == 0:
+                    tq["%s.t" % cid] = cid
+                    q.append("Q %s.t lprt\n%s" % (cid, slp_block(Ar)))
+        for j, (C, text, lab) in enumerate(mpw):
+            if len(text) < 400000 and C["name"] is not None:
+                on = C["objname"] if C["objname"] is not None else lp_objname(dict(objname=None, rows=[(r[0],) for r in C["rows"]]))
+                mq["%s.m%d" % (cid, j)] = (cid, lab, text)
+                q.append("Q %s.m%d mpswrite\n%s" % (cid, j, mlp_block(C, on)))
         for j, (label, A, B, ren, fm, why) in enumerate(chain):
             if why is not None or B is None:
                 fails.append((cid, "%s: %s" % (label, why or "no problem"), fm, texts))
@@ -640,8 +754,8 @@ def run_roundtrip_check(ck, fmt, pr, gen):
         # the hypothesis empty_ok of the oracle theorem is about the problem that was written: the dump taken after the edits
         def rng_(v):
             return F(0) if isinstance(v, str) else v
-        Pw = dict(d["P0"], rows=[(n_, s_, r_, (rng_(g_) if s_ == "R" and not isinstance(g_, str) else (F(10) ** 60 if isinstance(g_, str) else F(0))), e_) for (n_, s_, r_, g_, e_) in d["P0"]["rows"]])
-        if len(s) == 2 and s[0] is not None and s[1] is not None and d["chain"][0][2] is not None and gen.empty_rows_ok(P) and gen.empty_rows_ok(Pw):
+        Pw = None if d["P0"] is None else dict(d["P0"], rows=[(n_, s_, r_, (rng_(g_) if s_ == "R" and not isinstance(g_, str) else (F(10) ** 60 if isinstance(g_, str) else F(0))), e_) for (n_, s_, r_, g_, e_) in (d["P0"] or {"rows": []})["rows"]])
+        if len(s) == 2 and s[0] is not None and s[1] is not None and d["chain"][0][2] is not None and Pw is not None and gen.empty_rows_ok(Pw):
             nsolved += 1
             if s[0] != s[1]:
                 fails.append((cid, "status/value differ after the round trip: %s vs %s" % (s[0], s[1]), {fmt}, d["texts"]))
@@ -651,7 +765,7 @@ def run_roundtrip_check(ck, fmt, pr, gen):
             if why is not None or tz is None or d["t1"] is None or tz != d["t1"]:
                 fails.append((cid, "%s target: %s" % (ext, why or "decompressed text differs from the plain file"), {fmt}, d["texts"]))
                 continue
-            path = os.path.join(where[cid], "z.%s%s" % (e, ext))
+            path = os.path.join(where[cid], "%s_z.%s%s" % (cid, e, ext))
             try:
                 import gzip, bz2
                 raw = (gzip.open if zi == 0 else bz2.open)(path, "rb").read()
@@ -659,8 +773,80 @@ def run_roundtrip_check(ck, fmt, pr, gen):
                 raw = None
             if raw != d["t1"] and not cid in [f[0] for f in fails]:
                 fails.append((cid, "%s target is not a valid compressed copy of the plain text (independent decompression)" % ext, {fmt}, d["texts"]))
-    # ---- correspondence: number printing and bound elision
+    # ---- correspondence: the LP writer model (IO/LpWrite.write_lp) vs the bytes mpq_QSwrite_prob wrote, whole files line by line
     corr_bad = []
+    nw = 0
+    for k2, (cid, lab, text) in wq.items():
+        a = ans.get(k2)
+        if a is None or (a and a[0] in ("PARSE-ERROR", "UNKNOWN-QUERY")):
+            corr_bad.append("lpwrite query %s: %s" % (k2, a))
+            continue
+        nw += 1
+        model = b"".join(decb(t) + b"\n" for t in a)
+        if model != text:
+            ml, tl = model.split(b"\n"), text.split(b"\n")
+            d = next((i for i in range(max(len(ml), len(tl))) if (ml[i] if i < len(ml) else None) != (tl[i] if i < len(tl) else None)), 0)
+            msg = "LP writer: file '%s' of case %s differs from IO/LpWrite.write_lp at line %d: library %r, model %r" % (
+                lab, cid, d + 1, (tl[d] if d < len(tl) else None) and tl[d][:200], (ml[d] if d < len(ml) else None) and ml[d][:200])
+            if cid not in set(f[0] for f in fails):
+                fails.append((cid, "the LP text written differs from the writer model (line %d: %r vs model %r)" % (
+                    d + 1, (tl[d] if d < len(tl) else b"")[:120], (ml[d] if d < len(ml) else b"")[:120]), {"LP"}, info[cid]["texts"]))
+            corr_bad.append(msg)
+    nn, nren = 0, 0
+    for k2, (cid, lab, cn, rn, on, ren, noobj) in nq.items():
+        ac, ar = ans.get(k2 + "c"), ans.get(k2 + "r")
+        if ac is None or ar is None or (cn and len(ac) != len(cn)) or len(ar) != len(rn) + 1:
+            corr_bad.append("fixnames query %s: %s %s" % (k2, ac, ar))
+            continue
+        nn += 1
+        if noobj and ans.get(k2 + "o") != [enc(on)]:
+            corr_bad.append("default objective name of case %s: model %s, check %r" % (cid, ans.get(k2 + "o"), on))
+        model_ren = {}
+        for old, new in list(zip(cn, ac)) + list(zip(rn + [on], ar)):
+            if dec(new) != old:
+                model_ren[old] = dec(new)
+        nren += len(model_ren)
+        if model_ren != ren:
+            corr_bad.append("name repair of case %s file '%s': fix_names model renames %r, the writer announced %r" % (cid, lab, model_ren, ren))
+    if nq:
+        ck.cov["fix_names_correspondence"] = dict(tables_compared=nn, renames_predicted=nren, disagreements=sum(1 for x in corr_bad if x.startswith(("name repair", "default objective", "fixnames"))))
+    if tq:
+        nwf, nok, nrt = 0, 0, 0
+        for k2, cid in tq.items():
+            a = ans.get(k2)
+            if not a or len(a) < 3:
+                corr_bad.append("lprt query %s: %s" % (k2, a))
+                continue
+            nrt += 1
+            if a[0] == "1":
+                nwf += 1
+                if a[1] == "OK" and a[2] == "true":
+                    nok += 1
+                else:
+                    corr_bad.append("theorem C08_lp_roundtrip contradicted by the extracted code on case %s: wf_lpb holds, read_lp (write_lp P) -> %s" % (cid, a[1:]))
+        ck.cov["theorem_instances"] = dict(problems=nrt, precondition_wf_lp_holds=nwf, of_those_model_roundtrip_ok=nok,
+                                           note="wf_lpb (proved sound for wf_lp) evaluated on the dumped problem after the announced renames; for these problems "
+                                                "C08_lp_roundtrip applies, and together with the two correspondences (writer bytes here, reader outcomes in C10) "
+                                                "it predicts the round trip observed")
+    nm_ = 0
+    for k2, (cid, lab, text) in mq.items():
+        a = ans.get(k2)
+        if a is None or (a and a[0] in ("PARSE-ERROR", "UNKNOWN-QUERY")):
+            corr_bad.append("mpswrite query %s: %s" % (k2, a))
+            continue
+        nm_ += 1
+        model = b"".join(decb(t) + b"\n" for t in a)
+        if model != text:
+            ml, tl = model.split(b"\n"), text.split(b"\n")
+            d = next((i for i in range(max(len(ml), len(tl))) if (ml[i] if i < len(ml) else None) != (tl[i] if i < len(tl) else None)), 0)
+            corr_bad.append("MPS writer: file '%s' of case %s differs from IO/MpsWrite.write_mps at line %d: library %r, model %r" % (
+                lab, cid, d + 1, (tl[d] if d < len(tl) else None) and tl[d][:200], (ml[d] if d < len(ml) else None) and ml[d][:200]))
+            if cid not in set(f[0] for f in fails):
+                fails.append((cid, "the MPS text written differs from the writer model (line %d: %r vs model %r)" % (
+                    d + 1, (tl[d] if d < len(tl) else b"")[:120], (ml[d] if d < len(ml) else b"")[:120]), {"MPS"}, info[cid]["texts"]))
+    if fmt == "MPS":
+        ck.cov["mps_writer_correspondence"] = dict(files_compared_byte_for_byte=nm_, differing=sum(1 for x in corr_bad if x.startswith("MPS writer")))
+    ck.cov["lp_writer_correspondence"] = dict(files_compared_byte_for_byte=nw, differing=sum(1 for x in corr_bad if x.startswith("LP writer")))
     rcq = "CASE pn\n" + "".join("PRINTNUM %s\n" % qs(v) for v in nums)
     rc, out, err = run_io(rcq)
     real = [l.split()[1] for l in out.splitlines() if l.startswith("PRINTNUM ")]
